@@ -487,9 +487,15 @@ class HydrodynamicsTemplateModel:
             # vp at which wp changes sign
             vpSignChangeWp = (self.mu*(1-vm**2*(1-self.nu))-np.sqrt(sqrtDisc))/(
                 2*vm*self.nu*(self.mu-1))
-            if not np.isnan(vpSignChangeWp):
-                if vpMin < vpSignChangeWp < vpMax:
-                    vpMax = vpSignChangeWp-1e-10
+            if not np.isnan(vpSignChangeWp) and vpSignChangeWp > vpMin:
+                # wp has a pole at vpSignChangeWp and is positive on one side of it only:
+                # below the pole if alN > (mu-nu)/(3mu), above it otherwise. Keep the
+                # bracket strictly on that side, also when the pole coincides with vpMax
+                # (cs2 == cb2, where it sits exactly at vp = vm).
+                if (1 - 3 * self.alN) * self.mu - self.nu < 0:
+                    vpMax = min(vpMax, vpSignChangeWp - 1e-10)
+                elif vpSignChangeWp < vpMax:
+                    vpMin = vpSignChangeWp + 1e-10
 
         try:
             sol = root_scalar(
